@@ -248,6 +248,11 @@ def check_sweep(c, case, ev, files):
     key_cfg = "%s:%s:%s" % (case["ctype"], case["fit"], case["bias"])
     e0, e1 = fl(ev["e0"]), fl(ev["e1"])
     f0, f1 = ev["f0"], ev["f1"]
+    if (ev.get("err0") or ev.get("err")) and any(m in (str(ev.get("errs")) + str(case.get("_errs", ""))) for m in (
+            "both walls must be provided", "linear biases cannot be applied to periodic variables")):
+        # a one-sided wall or a linear bias on a periodic variable is refused by the library (by design): not a case
+        c.bump("bias_refused_for_periodic_variable")
+        return 0, 1
     if ev.get("err0") or ev.get("err"):
         c.inconc("error bits during sweep: " + key_cfg + " " + str(ev.get("errs"))[:300] + str(case.get("_errs", ""))[:300])
         return 0, 1
